@@ -156,15 +156,13 @@ func resourceReservationServiceAccount(
 		imagePullSecrets[secret.Name] = true
 	}
 
+	// the existing secrets keep their order and the missing global ones are appended in configuration order
+	// (rebuilding the list from the map would reorder it randomly and update the service account on every reconcile)
 	for _, secret := range kaiConfigUtils.GetGlobalImagePullSecrets(kaiConfig.Spec.Global) {
 		if !imagePullSecrets[secret.Name] {
 			imagePullSecrets[secret.Name] = true
+			sa.ImagePullSecrets = append(sa.ImagePullSecrets, v1.LocalObjectReference{Name: secret.Name})
 		}
-	}
-
-	sa.ImagePullSecrets = make([]v1.LocalObjectReference, 0, len(imagePullSecrets))
-	for secretName := range imagePullSecrets {
-		sa.ImagePullSecrets = append(sa.ImagePullSecrets, v1.LocalObjectReference{Name: secretName})
 	}
 
 	return []client.Object{sa}, nil
